@@ -17,6 +17,18 @@ import (
 	"github.com/HobbyOSs/gosk/pkg/cpu" // cpu インポートを1つ保持
 )
 
+// logCapture は log の出力を1エントリずつ溜めておく io.Writer です (Exec の分岐緩和ループで使う)。
+type logCapture struct {
+	entries [][]byte
+}
+
+func (c *logCapture) Write(p []byte) (int, error) {
+	c.entries = append(c.entries, append([]byte{}, p...))
+	return len(p), nil
+}
+
+func (c *logCapture) Reset() { c.entries = nil }
+
 // pass1, pass2 を操作するモジュール
 func Exec(parseTree any, assemblyDst string) (*pass1.Pass1, *pass2.Pass2) {
 
@@ -53,9 +65,37 @@ func Exec(parseTree any, assemblyDst string) (*pass1.Pass1, *pass2.Pass2) {
 		Client:           client,
 		AsmDB:            asmdb.NewInstructionDB(),
 		MacroMap:         make(map[string]ast.Exp), // activeContext.md に基づいて MacroMap の初期化を追加
+		RelaxBranches:    true,                     // 分岐命令の形式は緩和法で決める (下のループ)
 	}
+	// pass1 をやり直す場合に診断が重複しないよう、pass1 のログは溜めておき最後の走査の分だけ出力する
+	logDst := log.Writer()
+	logBuf := &logCapture{}
+	flushLog := func() {
+		log.SetOutput(logDst)
+		for _, entry := range logBuf.entries {
+			logDst.Write(entry)
+		}
+		logBuf.Reset()
+	}
+	log.SetOutput(logBuf)
+	defer flushLog() // panic した場合も溜めたログを失わない
 	// pass1.Eval を呼び出し、ctx を直接更新
 	pass1.Eval(prog, ctx) // Pass ctx, no return value assignment needed
+	// 分岐の緩和: rel8/rel16 で届かない分岐があればその形式を大きくして pass1 をやり直す。
+	// 形式は大きくなる一方なので必ず止まり、止まったときには pass1 のサイズと codegen の出力が一致している。
+	for pass1.GrowBranches() {
+		logBuf.Reset()
+		ctx = &codegen.CodeGenContext{
+			BitMode:          cpu.MODE_16BIT,
+			SymTable:         make(map[string]int32),
+			GlobalSymbolList: []string{},
+			MachineCode:      []byte{},
+		}
+		client, _ = ocode_client.NewCodegenClient(ctx)
+		pass1 = pass1.NextRelaxation(ctx.SymTable, ctx.GlobalSymbolList, client)
+		pass1.Eval(prog, ctx)
+	}
+	flushLog()
 
 	// pass2 の初期化に GlobalSymbolList を追加 (更新された ctx のリストを使用)
 	pass2 := &pass2.Pass2{
